@@ -379,6 +379,7 @@ type Clause struct {
 type LoopSpec struct {
 	Ordinal    int
 	Invariants []*Clause
+	Iterations []*Clause // checked at every back edge; may use atheader(e) for the value of e when the iteration started
 }
 
 type FuncSpec struct {
@@ -388,6 +389,7 @@ type FuncSpec struct {
 	Flags       map[string]bool
 	Requires    []*Clause
 	Assumes     []*Clause
+	DynCalls    map[string][]string
 	Ensures     []*Clause
 	Modifies    []string // raw targets; nil = unspecified (treated as "*"), ["nothing"] = empty
 	HasMod      bool
@@ -441,7 +443,7 @@ func newContracts() *Contracts {
 
 var clauseKeywords = map[string]bool{"requires": true, "ensures": true, "modifies": true, "preserves": true, "decreases": true,
 	"loop": true, "invariant": true, "assert": true, "func": true, "spec": true, "ghost": true, "axiom": true, "type": true,
-	"iface": true, "field": true, "end": true, "flags": true, "props": true, "lemma": true, "results": true, "global": true, "uses": true, "ufun": true, "assumes": true, "functype": true}
+	"iface": true, "field": true, "end": true, "flags": true, "props": true, "lemma": true, "results": true, "global": true, "uses": true, "ufun": true, "assumes": true, "functype": true, "dyncalls": true, "iteration": true, "fieldspec": true}
 
 type rawLine struct {
 	text string
@@ -504,6 +506,22 @@ func parseContractText(c *Contracts, pkgPath, file string, lines []rawLine) erro
 			kw, rest = s.text[:i], strings.TrimSpace(s.text[i+1:])
 		}
 		switch kw {
+		case "fieldspec":
+			// fieldspec pkg.Type.Field: contract assumed for every call through that function-valued struct field
+			cur = &FuncSpec{Pkg: pkgPath, Flags: map[string]bool{"functype": true}, Loops: map[int]*LoopSpec{}, File: file, Line: s.line}
+			curLoop, curType = nil, nil
+			fields := strings.Fields(rest)
+			if len(fields) == 0 {
+				return fmt.Errorf("%s:%d: fieldspec needs pkg.Type.Field", file, s.line)
+			}
+			cur.Name = "fieldspec." + fields[0]
+			for i := 1; i < len(fields); i++ {
+				if fields[i] == "props" && i+1 < len(fields) {
+					cur.Props = strings.Split(fields[i+1], ",")
+					i++
+				}
+			}
+			c.Funcs["fieldspec."+fields[0]] = cur
 		case "functype":
 			// contract every value of a named function type is assumed to satisfy at dynamic call sites
 			cur = &FuncSpec{Pkg: pkgPath, Flags: map[string]bool{"functype": true}, Loops: map[int]*LoopSpec{}, File: file, Line: s.line}
@@ -553,6 +571,27 @@ func parseContractText(c *Contracts, pkgPath, file string, lines []rawLine) erro
 				return fmt.Errorf("%s:%d: results outside func", file, s.line)
 			}
 			cur.ResultNames = strings.Fields(strings.ReplaceAll(rest, ",", " "))
+		case "dyncalls":
+			// dyncalls <param> modifies <targets>: calls through function values taken from parameter <param> are assumed to
+			// modify at most the listed locations (an assumption about the callers, reported in the evidence)
+			if cur == nil {
+				return fmt.Errorf("%s:%d: dyncalls outside func", file, s.line)
+			}
+			f := strings.Fields(rest)
+			if len(f) < 3 || f[1] != "modifies" {
+				return fmt.Errorf("%s:%d: dyncalls <param> modifies <targets>", file, s.line)
+			}
+			if cur.DynCalls == nil {
+				cur.DynCalls = map[string][]string{}
+			}
+			for _, t := range splitTop(strings.TrimSpace(rest[strings.Index(rest, "modifies")+8:])) {
+				if t = strings.TrimSpace(t); t != "" && t != "nothing" {
+					cur.DynCalls[f[0]] = append(cur.DynCalls[f[0]], t)
+				}
+			}
+			if cur.DynCalls[f[0]] == nil {
+				cur.DynCalls[f[0]] = []string{}
+			}
 		case "assumes":
 			// an ownership / environment assumption: assumed by the function, NOT checked at call sites; reported in the evidence
 			if cur == nil {
@@ -635,6 +674,18 @@ func parseContractText(c *Contracts, pkgPath, file string, lines []rawLine) erro
 			}
 			curLoop = &LoopSpec{Ordinal: n}
 			cur.Loops[n] = curLoop
+		case "iteration":
+			cl, err := mkClause(kw, rest, s.line)
+			if err != nil {
+				return err
+			}
+			if curLoop == nil {
+				return fmt.Errorf("%s:%d: iteration outside loop", file, s.line)
+			}
+			if len(cl.Props) == 0 {
+				cl.Props = cur.Props
+			}
+			curLoop.Iterations = append(curLoop.Iterations, cl)
 		case "invariant":
 			cl, err := mkClause(kw, rest, s.line)
 			if err != nil {
